@@ -160,6 +160,19 @@ def base_grid(tier, monitors, gregory_only=False, meek_only=False, symtie=False,
             for seats in range(1, min(2, elig) + 1):
                 jobs.append(job(rule, opts, n, seats, 2 if n == 4 else 3, 6 if n == 4 else 6 + bump, monitors, B, withdrawn=wd,
                                 undeclared=und, symtie=symtie, weight=2))
+    # as many eligible candidates as seats (three candidates, one withdrawn, two seats): the rules' "elect all" exits
+    if withdrawn:
+        full = [('wigm', dict(FX2)), ('wigm-prf', {}), ('wigm-prf-batch', {}), ('cfer', {}), ('cfer-batch', {}), ('scotland', {}), ('mpls', {}),
+                ('meek', {'arithmetic': 'fixed', 'precision': 3, 'omega': 2}), ('warren', {'arithmetic': 'fixed', 'precision': 3, 'omega': 2}),
+                ('meek-prf', {}), ('qpq', {})]
+        for rule, opts in full:
+            if not want(rule):
+                continue
+            if gregory_only and rule in ('meek', 'warren', 'meek-prf', 'qpq'):
+                continue
+            if meek_only and rule not in ('meek', 'warren', 'meek-prf'):
+                continue
+            jobs.append(job(rule, opts, 3, 2, 3, 5 if quick else 6, monitors, B, withdrawn=[2], symtie=symtie, weight=1))
     # zero-free supports: every listed ballot line present at least once, so E.ballots is exactly the file's ballot list
     # (a line of multiplicity 0 is otherwise still an element of the list the real code walks)
     import itertools as _it3
